@@ -14,6 +14,9 @@ R06b gating: for every reachable state and each of the 7 commands, _validate_con
      not holding / holding.
 R06c the run id is minted from uuid4 in set_run_id; the control-state message reports exactly the
      three flags.
+R06e no run, no run state: explored *with* hardware/interpreter faults (exact scheduler, two requests per gap), every state without a
+     run (and without a Restart in its gap) has System State Stopped and neither the paused nor the holding flag - an error must not
+     "pause" an engine that has no run (Start would be refused, Unpause/Hold/Restart accepted).
 thorough tier additionally explores with hardware/interpreter faults (set_error_state) and all ghost
 variables and records Inv-breaking fault states as observations (outside the property's quantifier).
 Assumes the command scheduling read off CommandManager (newest request first, one step per tick).
@@ -184,6 +187,27 @@ def run(ctx) -> None:
             ctx.fail("R06c", cm, cm.node, f"control state message: {k} = engine.{v}", f"reports {got.get(k)}")
     if len(ex.reach) < 100:
         raise AnchorError(f"run-state exploration found only {len(ex.reach)} states (floor 100): the model collapsed")
+    # ---- R06e
+    ctx.rule("R06e", "no run, no run state - also after an error")
+    exf = Explorer(ctx, faults=True, track=("err",), max_pending=2, exact=True)
+    exf.explore()
+    badf = None
+    for s in exf.reach:
+        d = sd(s)
+        if d["pend"] is not None or d["started"] or d["if_Restart"] is not None:
+            continue
+        if d["sys"] != "Stopped" or d["paused"] or d["holding"]:
+            badf = s
+            break
+    inst = "with no run active System State is Stopped and no pause/hold flag is set, whatever failed before"
+    if badf is None:
+        ctx.ok("R06e", inst, {"rule": "R06e", "states_with_faults": len(exf.reach)})
+    else:
+        ctx.fail("R06e", ex.tick, ex.tick.node, inst, "an error while no run is active (a failed hardware read while idle, a failed write in the "
+                 "tick that completes Stop, a user command with unparsable arguments while stopped) pauses 'the run': System State Paused and "
+                 "is_paused with is_running False and no Run Id - Start is refused (state is not Stopped) while Unpause, Stop, Hold and Restart "
+                 f"are accepted with no run | history: {' > '.join(exf.trace(badf))} | state: {show(badf)}",
+                 function="openpectus.engine.internal_commands_impl (run-state machine)")
 
 
 def audit(ctx):
